@@ -601,7 +601,7 @@ pub fn c12(thorough: bool, rng: &mut Rng, out: &mut Out) {
             out.fail(i, "C12 a virtual sign panicked on a recorded crash history".into());
         }
     }
-    let (nw, steps) = if thorough { (20_000, 120) } else { (1_500, 60) };
+    let (nw, steps) = if thorough { (60_000, 150) } else { (1_500, 60) };
     run_walks("C12", rng, out, nw, steps, 3);
     if thorough {
         // 70000 accepted chunks: the chunk counter must not overflow
@@ -705,7 +705,7 @@ pub fn c13(thorough: bool, rng: &mut Rng, out: &mut Out) {
     let cap = if thorough { 6000 } else { 400 };
     bfs(out, PageFlipStyle::Manual, cap);
     bfs(out, PageFlipStyle::Automatic, cap);
-    let (nw, steps) = if thorough { (8_000, 150) } else { (600, 60) };
+    let (nw, steps) = if thorough { (30_000, 150) } else { (600, 60) };
     run_walks("C13", rng, out, nw, steps, 1);
 }
 
@@ -729,7 +729,7 @@ pub fn c14(thorough: bool, rng: &mut Rng, out: &mut Out) {
             out.fail(i, format!("C14 unaddressed DataChunksSent changed a sign that is not receiving (ReadyToReset after an abandoned transfer): {}", t));
         }
     }
-    let (nw, steps) = if thorough { (20_000, 150) } else { (1_500, 80) };
+    let (nw, steps) = if thorough { (60_000, 150) } else { (1_500, 80) };
     for _ in 0..nw {
         let ns = 1 + rng.below(4) as usize;
         let mut addrs: Vec<u16> = vec![];
